@@ -355,6 +355,25 @@ func (r *runner) exec(st *step) error {
 			}
 			r.blStarted[st.N] = true
 			s.BecomeLeaderStart(st.N, st.T-1, st.Rf, fm)
+			// do not look into the controller while the handler is still attaching followers (it holds
+			// the lock and writes its cursor map): wait until it returned or every cursor it created has
+			// arrived at the wire
+			deadline := time.Now().Add(r.timeout)
+			for time.Now().Before(deadline) {
+				if fin, _ := s.BecomeLeaderResult(st.N); fin {
+					break
+				}
+				all := true
+				for f := range fm {
+					if !s.IsParked("connect", st.N, f) && !s.IsParked("snapshot", st.N, f) {
+						all = false
+					}
+				}
+				if all {
+					break
+				}
+				time.Sleep(time.Millisecond)
+			}
 		}
 	case "BecomeLeaderTimeout":
 		s.BecomeLeaderCancel(st.N)
